@@ -404,3 +404,16 @@ func symxTick() {
 	symxClockMs++
 	rt.SetNow(1600000000+symxClockMs/1000, (symxClockMs%1000)*1000000)
 }
+
+// symxPoolRetryWait lets n 100 ms retry pauses of writer.getFree elapse (virtual clock under
+// the engine, real sleeps natively).
+func symxPoolRetryWait(n int) {
+	for w := 0; w < n; w++ {
+		if rt.Native() {
+			time.Sleep(110 * time.Millisecond)
+		}
+		symxClockMs += 100
+		symxTick()
+		rt.Quiesce()
+	}
+}
